@@ -71,6 +71,7 @@ func verifReplayOne(t *testing.T, path string) {
 		verifFresh = map[string]int{}
 		verifObserved = nil
 		verifObsCnt = map[string]int{}
+		verifCasOps, verifCasDeltas = 0, map[*int32]int32{}
 		o := verifRunOnce(f, 3*time.Second)
 		fmt.Printf("VERIF-OUTCOME %s\n", o)
 		fmt.Printf("VERIF-OBSERVED %s\n", strings.Join(verifObserved, " "))
